@@ -196,6 +196,67 @@ def run(ctx):
                                        'input': {'op': o, 'left': repr(a), 'right': repr(b), 'route': 'formula',
                                                  'blank': how, 'cells': repr(cells)},
                                        'expected': want, 'got': got})
+    # (a2) LITERAL operands (round-8 seed C09-10: constants cached process-wide by their SPELLING, so the text literal
+    # "2.50" met after the number literal 2.50 was that number).  Number, text and logical literals with IDENTICAL
+    # spellings, every ordered pair, every operator; the reference is the typed library call on the values the literals
+    # denote; run in this process in generated order and in fresh interpreters in both orders of first appearance
+    lits = [('1', 1), ('0', 0), ('2.50', 2.5), ('10', 10), ('5', 5), ('1.0', 1.0), ('1E1', 10.0),
+            ('"1"', '1'), ('"0"', '0'), ('"2.50"', '2.50'), ('"10"', '10'), ('"5"', '5'), ('"1.0"', '1.0'), ('"1E1"', '1E1'),
+            ('TRUE', True), ('FALSE', False), ('"TRUE"', 'TRUE'), ('"FALSE"', 'FALSE'), ('"abc"', 'abc'), ('""', '')]
+    lit_jobs = []
+    for (sa, va), (sb, vb) in itertools.product(lits, repeat=2):
+        for o in OPS:
+            want = call_real(xl.FUNCTIONS[OPS[o]], typed(va), typed(vb))
+            lit_jobs.append((f'={sa}{SYM[o]}{sb}', want))
+    ctx.rng.shuffle(lit_jobs)
+
+    def lit_eval(jobs):
+        out = []
+        for k in range(0, len(jobs), 200):
+            chunk = jobs[k:k + 200]
+            cells = {f'Sheet1!A{i + 1}': f for i, (f, _w) in enumerate(chunk)}
+            m = ModelCompiler().read_and_parse_dict(cells)
+            e = Evaluator(m)
+            out += [call_real(e.evaluate, f'Sheet1!A{i + 1}') for i in range(len(chunk))]
+        return out
+
+    def lit_judge(jobs, gots, where):
+        for (f, want), got in zip(jobs, gots):
+            res.evaluations += 1
+            res.count('literal:' + where)
+            res.nontrivial.add(('literal', f))
+            if got != want:
+                res.violations.append({'what': 'a comparison of LITERAL operands differs from the typed library call on the values '
+                                               f'the literals denote ({where})',
+                                       'input': {'formula': f, 'route': 'literal', 'where': where},
+                                       'expected': want, 'got': got})
+    lit_judge(lit_jobs, lit_eval(lit_jobs), 'this process, generated order')
+    import json as _json
+    import os as _os
+    import subprocess as _sp
+    import sys as _sys
+    code = ('import sys, json\n'
+            f'sys.path.insert(0, {str(common.REPO)!r}); sys.path.insert(0, {_os.path.dirname(_os.path.dirname(_os.path.abspath(__file__)))!r})\n'
+            'import common\nfrom common import call_real\n'
+            'from xlcalculator import ModelCompiler, Evaluator\n'
+            'jobs = json.loads(sys.stdin.read())\nout = []\n'
+            'for k in range(0, len(jobs), 200):\n'
+            '    chunk = jobs[k:k + 200]\n'
+            '    cells = {f"Sheet1!A{i + 1}": f for i, f in enumerate(chunk)}\n'
+            '    e = Evaluator(ModelCompiler().read_and_parse_dict(cells))\n'
+            '    out += [call_real(e.evaluate, f"Sheet1!A{i + 1}") for i in range(len(chunk))]\n'
+            'print(json.dumps(out))\n')
+    for where, order in (('fresh interpreter, generated order', lit_jobs),
+                         ('fresh interpreter, reverse order', lit_jobs[::-1]),
+                         ('fresh interpreter, text-first order', sorted(lit_jobs, key=lambda j: (not j[0].startswith('="'), j[0])))):
+        pr = _sp.run([_sys.executable, '-c', code], input=_json.dumps([f for f, _w in order]), stdout=_sp.PIPE,
+                     stderr=_sp.DEVNULL, text=True, timeout=600)
+        try:
+            gots = _json.loads(pr.stdout)
+        except Exception:  # noqa: BLE001
+            raise RuntimeError(f'C09 literal route: the child ({where}) gave no result')
+        lit_judge(order, gots, where)
+
     # (b) moments of ONE day and texts mixing ASCII with non-ASCII letters: the order is decided by the time of day /
     # by the case-insensitive letters whatever class of text the other operand is.  (Across days a time of day is
     # known finding D45 of C18: the fraction is scaled wrongly; within one day the order of the fractions is what counts.)
